@@ -200,3 +200,42 @@ func (y *YieldAccept) Accept(dh dns.Header) dns.MsgAcceptAction {
 	stall(y.K, y.Slow, "accept.stall")
 	return dns.DefaultMsgAcceptFunc(dh)
 }
+
+// BubbleStacksAll lists the goroutines of synctest bubbles that are not
+// durably blocked (for hang reports: typically blocked in sync.(*Mutex).Lock).
+func BubbleStacksAll() string {
+	buf := make([]byte, 1<<20)
+	buf = buf[:runtime.Stack(buf, true)]
+	var out []string
+	for _, g := range strings.Split(string(buf), "\n\n") {
+		head, rest, _ := strings.Cut(g, "\n")
+		if !strings.Contains(head, "synctest bubble") || strings.Contains(head, "durable") {
+			continue
+		}
+		var frames []string
+		for _, ln := range strings.Split(rest, "\n") {
+			if strings.HasPrefix(ln, "\t") || strings.HasPrefix(ln, "created by") {
+				continue
+			}
+			if i := strings.LastIndex(ln, "("); i > 0 {
+				ln = ln[:i]
+			}
+			if strings.HasPrefix(ln, "runtime.") || strings.HasPrefix(ln, "internal/") {
+				continue
+			}
+			frames = append(frames, ln)
+			if len(frames) == 4 {
+				break
+			}
+		}
+		st := head
+		if i := strings.Index(head, "["); i >= 0 {
+			st = head[i:]
+		}
+		out = append(out, st+" "+strings.Join(frames, " < "))
+		if len(out) == 8 {
+			break
+		}
+	}
+	return strings.Join(out, "; ")
+}
